@@ -1,6 +1,7 @@
 package props
 
 import (
+	"go/types"
 	"go/token"
 	"sort"
 	"strings"
@@ -408,6 +409,84 @@ func routesOf(c *report.Ctx, f *ssa.Function) []routeInfo {
 		})
 		out = append(out, ri)
 	})
+	out = append(out, routesFromTable(f)...)
+	return out
+}
+
+// routesFromTable recognises routes registered from a local table: a slice/array literal of structs holding the
+// registering method value (router.Get, router.Post, ...), a constant pattern and the handler, applied in a loop
+// (`for _, r := range routes { r.register(r.pattern, r.handler.ServeHTTP) }`).
+func routesFromTable(f *ssa.Function) []routeInfo {
+	var out []routeInfo
+	// the loop: a call of a function value read from a field of a table element
+	applied := map[string]bool{} // struct type string -> applied in a loop
+	an.AllInstrs(f, func(in ssa.Instruction) {
+		call, ok := in.(*ssa.Call)
+		if !ok || call.Call.IsInvoke() || call.Call.StaticCallee() != nil {
+			return
+		}
+		if ld, ok := call.Call.Value.(*ssa.UnOp); ok && ld.Op == token.MUL {
+			if fa, ok := ld.X.(*ssa.FieldAddr); ok && an.InLoop(call) {
+				applied[fa.X.Type().String()] = true
+			}
+		}
+		if fv, ok := call.Call.Value.(*ssa.Field); ok && an.InLoop(call) {
+			applied[types.NewPointer(fv.X.Type()).String()] = true
+		}
+	})
+	if len(applied) == 0 {
+		return nil
+	}
+	an.AllInstrs(f, func(in ssa.Instruction) {
+		arr, ok := in.(*ssa.Alloc)
+		if !ok {
+			return
+		}
+		at, ok := arr.Type().Underlying().(*types.Pointer).Elem().Underlying().(*types.Array)
+		if !ok {
+			return
+		}
+		if _, isStruct := at.Elem().Underlying().(*types.Struct); !isStruct || !applied[types.NewPointer(at.Elem()).String()] {
+			return
+		}
+		for _, r := range *arr.Referrers() {
+			ea, ok := r.(*ssa.IndexAddr)
+			if !ok {
+				continue
+			}
+			if _, constIdx := ea.Index.(*ssa.Const); !constIdx {
+				continue
+			}
+			ri := routeInfo{pos: ea.Pos()}
+			for _, r2 := range *ea.Referrers() {
+				fa, ok := r2.(*ssa.FieldAddr)
+				if !ok {
+					continue
+				}
+				for _, r3 := range *fa.Referrers() {
+					st, ok := r3.(*ssa.Store)
+					if !ok || st.Addr != ssa.Value(fa) {
+						continue
+					}
+					if mc, ok := st.Val.(*ssa.MakeClosure); ok {
+						name := mc.Fn.(*ssa.Function).Name()
+						if strings.HasSuffix(name, "$bound") && strings.Contains(mc.Fn.(*ssa.Function).String(), "go-chi/chi.Mux") {
+							ri.method = strings.TrimSuffix(name, "$bound")
+							continue
+						}
+					}
+					if s, k := an.ConstString(st.Val); k {
+						ri.pattern = s
+						continue
+					}
+					ri.handlerCtor, ri.wrappers = decodeHandler(st.Val)
+				}
+			}
+			if ri.method != "" && ri.pattern != "" {
+				out = append(out, ri)
+			}
+		}
+	})
 	return out
 }
 
@@ -558,7 +637,10 @@ func checkRequestIDValidator(c *report.Ctx) {
 	}
 	// the refusing edge renders InvalidRequestID (400)
 	refuse := an.CallsTo(inner, "L/rapi/rendering.RenderInvalidRequestID")
-	c.Check("R-CONST", "L/rapi/middleware.AwsRequestIDValidator/refusal-renders-400", "a wrong or stale id is answered by RenderInvalidRequestID", len(refuse) == 1, fpos(inner), len(refuse), "%d refusal render sites", len(refuse))
+	min, max := an.Count(inner, func(in ssa.Instruction) bool {
+		return an.IsCallTo(in, "L/rapi/rendering.RenderInvalidRequestID", "net/http.Handler.ServeHTTP")
+	})
+	c.Check("R-CONST", "L/rapi/middleware.AwsRequestIDValidator/refusal-renders-400", "a wrong or stale id is answered by RenderInvalidRequestID: on every path the request is either handed on or refused that way, exactly once", len(refuse) >= 1 && min == 1 && max == 1, fpos(inner), len(refuse), "%d refusal render sites; handed on or refused per path: min %d, max %d", len(refuse), min, max)
 	if r := c.P.Func("L/rapi/rendering", "RenderInvalidRequestID"); r != nil {
 		ok := false
 		for _, call := range an.CallsTo(r, "L/rapi/rendering.renderErrorResponse", "L/rapi/rendering.RenderJSON", "L/rapi/rendering.renderJSON") {
